@@ -43,6 +43,10 @@ def meet(a, b):
     return (lo, hi)
 
 
+# value ranges of struct fields that are contracts of the producer (listed under 'trusted' by the rule that relies on them)
+FIELD_RANGES = {}
+
+
 class Intervals:
     def __init__(self, fn, tables=None, param_ranges=None, call_ranges=None, widen_after=6, facts=None):
         """tables: {static var id or qn: (minval, maxval)} value ranges of constant tables
@@ -86,6 +90,9 @@ class Intervals:
             mk = self.member_key(e)
             if mk is not None and mk in st:
                 return st[mk]
+            fr = FIELD_RANGES.get(((e.get('cls') or '').split('::')[-1], e.get('name')))
+            if fr is not None:
+                return fr
             return type_range(e.get('t'))
         if k == 'un':
             v = self.ev(e['e'], st)
@@ -119,6 +126,15 @@ class Intervals:
                 r = (a[0] + b[0], a[1] + b[1])
             elif op == '-':
                 r = (a[0] - b[1], a[1] - b[0])
+                # remainder idiom  X - K * (X / K)  (or (X / K) * K): X mod K for X >= 0
+                rr = strip(e['r'])
+                if a[0] >= 0 and rr is not None and rr.get('k') == 'bin' and rr['op'] == '*':
+                    for kx, qx in ((rr['l'], rr['r']), (rr['r'], rr['l'])):
+                        kc = cval(kx)
+                        q = strip(qx)
+                        if kc is not None and kc > 0 and q is not None and q.get('k') == 'bin' and q['op'] == '/' and cval(q['r']) == kc \
+                                and show(strip(q['l'])) == show(strip(e['l'])) and not any(y.get('k') in ('call', 'un') and y.get('op') in ('++', '--', None) for y in walk(e['l'])):
+                            r = (0, min(a[1], kc - 1))
             elif op == '*':
                 ps = [x * y for x in a for y in b if abs(x) != INF and abs(y) != INF]
                 if len(ps) == 4:
@@ -333,6 +349,12 @@ class Intervals:
             return Intervals._ret_memo[key]
         Intervals._ret_memo[key] = None    # recursion guard
         g = self.facts.by_id[call['cid']]
+        # every return is a literal constant (a classification ladder such as Ctz10): the hull of the constants
+        rets = [strip(s_) for _, _, s_ in g.stmts() if isinstance(strip(s_), dict) and strip(s_).get('k') == 'ret' and strip(s_).get('e') is not None]
+        if rets and all(cval(r_['e']) is not None for r_ in rets) and type_range(g.d.get('ret_t')) != (-INF, INF):
+            cs = [cval(r_['e']) for r_ in rets]
+            Intervals._ret_memo[key] = (min(cs), max(cs))
+            return Intervals._ret_memo[key]
         if len(g.blocks) > 12 or type_range(g.d.get('ret_t')) == (-INF, INF) or getattr(self, '_depth', 0) >= 2:
             return None
         sub = Intervals.__new__(Intervals)
